@@ -46,10 +46,23 @@ def close(a, b):
     return a == b or abs(a - b) <= 1e-12 + 4 * math.ulp(max(abs(a), abs(b)))
 
 
-def run_impl(spec, degree, use_antecedent, row):
+def run_impl(spec, degree, use_antecedent, row, history=None):
     eng = build.mk_engine(spec)
     rb = eng.rule_blocks[0]
     rule = rb.rules[0]
+    # loading is idempotent: a rule that is loaded again (or re-texted and loaded) concludes exactly what its text says
+    if history in ("reload", "reload2"):
+        for _ in range(1 if history == "reload" else 2):
+            rule.load(eng)
+    elif history == "retext":
+        r = spec["blocks"][0]["rules"][0]
+        alt = dict(r, cons=list(reversed(r["cons"])) + r["cons"][:1])
+        rule.text = gen.rule_text(alt)
+        rule.load(eng)
+        rule.text = gen.rule_text(r)
+        rule.load(eng)
+        if not r.get("enabled", True):
+            rule.enabled = False
     before = {v.name: list(v.fuzzy.terms) for v in eng.output_variables}
     if use_antecedent:
         for v, x in zip(eng.input_variables, row):
@@ -75,8 +88,11 @@ def check_consequent(ctx, case) -> None:
     block = spec["blocks"][0]
     r = block["rules"][0]
     text = gen.rule_text(r)
-    eng, rule, deg, before = run_impl(spec, case.get("degree"), case.get("use_antecedent", False), case.get("row"))
+    eng, rule, deg, before = run_impl(spec, case.get("degree"), case.get("use_antecedent", False), case.get("row"),
+                                        case.get("history"))
     ctx.ev()
+    if case.get("history"):
+        ctx.cls("history:" + case["history"])
     degs = [float(x) for x in np.atleast_1d(np.asarray(deg, dtype=float))]
     batch = np.ndim(deg) > 0 and np.size(deg) > 1
     ctx.cls("batch" if batch else "scalar")
@@ -186,11 +202,12 @@ def cases(draw):
     spec = {"name": "E", "inputs": [inp], "outputs": outputs, "blocks": [block]}
     deg = st.one_of(gen.unit_degree(), st.sampled_from(SPECIAL))
     k = draw(st.integers(0, 5))
+    hist = draw(st.sampled_from([None, None, None, "reload", "reload2", "retext"]))
     if k == 0:
-        return {"spec": spec, "use_antecedent": True, "row": draw(gen.input_row(spec)), "degree": None}
+        return {"spec": spec, "use_antecedent": True, "row": draw(gen.input_row(spec)), "degree": None, "history": hist}
     if k == 1:
-        return {"spec": spec, "degree": draw(st.lists(deg, min_size=2, max_size=5))}
-    return {"spec": spec, "degree": draw(deg)}
+        return {"spec": spec, "degree": draw(st.lists(deg, min_size=2, max_size=5)), "history": hist}
+    return {"spec": spec, "degree": draw(deg), "history": hist}
 
 
 def shard(ctx, shard, nshards, ex):
